@@ -144,7 +144,7 @@ func (dec *Decoder) decodeBigIntValue(t reflect.Type, tag byte, p *big.Int) {
 	var pp *big.Int
 	dec.decodeBigInt(t, tag, &pp)
 	if pp == nil {
-		*p = *bigIntZero
+		p.Set(bigIntZero)
 	} else {
 		*p = *pp
 	}
@@ -189,7 +189,7 @@ func (dec *Decoder) decodeBigFloatValue(t reflect.Type, tag byte, p *big.Float) 
 	var pp *big.Float
 	dec.decodeBigFloat(t, tag, &pp)
 	if pp == nil {
-		*p = *bigFloatZero
+		p.Copy(bigFloatZero)
 	} else {
 		*p = *pp
 	}
@@ -232,7 +232,7 @@ func (dec *Decoder) decodeBigRatValue(t reflect.Type, tag byte, p *big.Rat) {
 	var pp *big.Rat
 	dec.decodeBigRat(t, tag, &pp)
 	if pp == nil {
-		*p = *bigRatZero
+		p.Set(bigRatZero)
 	} else {
 		*p = *pp
 	}
